@@ -321,6 +321,7 @@ Fixpoint as_num_loop (fuel : nat) (k : numkind) (pj : pjson) (a : cont) (acc : l
   match fuel with
   | O => OutOfFuel
   | S f =>
+    if c_len a <=? c_off a then Err else    (* corrupt input: array is not terminated *)
     do w <- rd pj (c_len a) (c_off a);
     let tag := word_tag w in
     let off := c_off a + 1 in
